@@ -125,10 +125,10 @@ section size
 variable [Group G] [AddCommGroup V] [DistribMulAction G V] [BEq G] [LawfulBEq G]
 
 /-- **shape and data agree**: for well-formed sensors (non-empty pose path, as many pixel offsets as
-the pixel shape says) the returned flat data has exactly `prod(shape)` elements, and the element at
-row-major position `((l*M + m)*K + k)*P + p` is the `[l][m][k][p]` entry of the array after
-pixel_agg / sumup — in particular (no sumup, no pixel_agg) the `[l][m][k][p]` entry of the tensor
-that `level2_refines` specifies. -/
+the pixel shape says) the returned flat data has exactly `prod(shape)` elements.  (Only the length is stated here; the
+element at row-major position `((l*M + m)*K + k)*P + p` being the `[l][m][k][p]` entry of the tensor that
+`level2_refines` specifies is `getBH_data_is_tensor` below — no sumup, no pixel_agg —, `C05.sumup_is_sum_indexed` and
+`C04.pixel_agg_is_reduction_end_to_end`.) -/
 theorem getBH_size (flipX : V → V) (vmin vmax : V → V → V) (entries : List (Entry G V))
     (sensors : List (Sens G V)) (sumup : Bool) (agg : Agg) (out : Out V)
     (hs : ∀ k ∈ sensors, k.WF)
